@@ -101,11 +101,23 @@ class Module(object):
       self.tree = ast.parse(self.source, filename=self.path)
     except SyntaxError as e:
       raise AnalysisError('cannot parse %s: %s' % (relpath, e))
+    # variables are identified by role, not by name (sa/roles.py)
+    from sa import roles
+    roles.align(relpath, self.tree, repo.role_notes)
     self.funcs = {}
     self.classes = {}
     self.imports = {}                 # alias -> module short name
     self.imported_names = {}          # alias -> (module short name, name)
     self._index()
+    # names know where they stand (used to read a named constant as its
+    # definition: sa/tables.py)
+    for x in ast.walk(self.tree):
+      if isinstance(x, ast.Name):
+        x._mod = self
+    for fi in self.funcs.values():
+      for x in walk_local(fi.node):
+        if isinstance(x, ast.Name):
+          x._fi = fi
 
   def _index(self):
     for node in ast.walk(self.tree):
@@ -156,6 +168,16 @@ class Module(object):
 
   def func(self, qualname):
     if qualname not in self.funcs:
+      # a nested function moved to module level (or back), or a method moved
+      # between a class and the module: the same function when exactly one
+      # function of the module has that name
+      last = qualname.split('.')[-1]
+      same = [q for q in self.funcs if q.split('.')[-1] == last]
+      if len(same) == 1 and '.' in qualname + same[0]:
+        self.repo.role_notes.append('%s: function %s is the one the rules call %s' % (
+            self.relpath, same[0], qualname))
+        self.funcs[qualname] = self.funcs[same[0]]
+        return self.funcs[same[0]]
       raise AnalysisError('anchor missing: function %s in %s' %
                           (qualname, self.relpath))
     return self.funcs[qualname]
@@ -207,6 +229,7 @@ class Repo(object):
     self._mods = {}
     self._method_index = None
     self._resolve_cache = {}
+    self.role_notes = []
 
   def mod(self, relpath):
     if relpath not in self._mods:
@@ -463,3 +486,14 @@ def str_constants(node):
 def names_read(node):
   return {n.id for n in ast.walk(node)
           if isinstance(n, ast.Name) and isinstance(n.ctx, ast.Load)}
+
+
+def tables_const_strings(c):
+  """constant string(s) denoted by a comparator: 'x' -> ['x'] (for ==) or the
+  characters (for `in 'xyz'`), ('a', 'b') -> ['a', 'b']; None when not constant."""
+  if isinstance(c, ast.Constant) and isinstance(c.value, str):
+    return [c.value] if len(c.value) <= 1 else [c.value] + list(c.value)
+  if isinstance(c, (ast.Tuple, ast.List, ast.Set)) and all(
+      isinstance(e, ast.Constant) and isinstance(e.value, str) for e in c.elts):
+    return [e.value for e in c.elts]
+  return None
